@@ -9,7 +9,7 @@ From MW Require Import Model.Base Model.F64 Model.Num Model.Datum Model.Transfor
   Model.VmTypes Model.Heap Model.Gc Model.VmBase Model.Compile Model.Vm
   Proofs.GcProofs Proofs.SymtabProofs Proofs.VmProofs0 Proofs.TailProofs Proofs.EnvProofs
   Proofs.FlatProofs Proofs.FlatCompile Proofs.TransformProofs Proofs.FreeSymProofs
-  Proofs.NoPanicBase Proofs.NoPanicPrims Proofs.NoPanicPrims2.
+  Proofs.NoPanicBase Proofs.NoPanicPrims Proofs.NoPanicPrims2 Proofs.NoPanicPrims3 Proofs.NoPanicPutCell.
 Open Scope N_scope.
 Arguments N.add : simpl never.
 Arguments N.sub : simpl never.
@@ -145,15 +145,65 @@ Qed.
 Lemma ids_opan b : opan (internally_defined_symbols b).
 Proof. apply ids_loop_opan. Qed.
 
+(* the macro expander (Model/Transform.v, transform_expr of Model/Compile.v) panics at the sites
+   542 / 447 only; both are allowed *)
+Ltac oif := match goal with |- opan (if ?b then _ else _) => destruct b end.
+Lemma pm_loop_opan lits ell rec : (forall a b c, opan (rec a b c)) ->
+  forall eit pit cur ie env, opan (pm_loop lits ell rec eit pit cur ie env).
+Proof.
+  intros Hr. induction eit as [|e eit IH]; intros pit cur ie env; [exact I|].
+  cbn [pm_loop]. destruct (pm_select _ _ _ _) as [b|cur' pit']; [exact I|]. cbv zeta.
+  destruct cur'; repeat oif; try exact I; try apply IH.
+  apply opan_bind; [apply Hr|]. intros [env'|] _; [apply IH|exact I].
+Qed.
+Lemma pattern_match_opan lits ell f : forall pt e env, opan (pattern_match lits ell f pt e env).
+Proof.
+  induction f as [|f IH]; intros pt e env; [exact I|]. cbn [pattern_match].
+  oif; [exact I|]. apply pm_loop_opan. exact IH.
+Qed.
+Lemma geb_opan bs its sym : opan (get_expanded_binding bs its sym).
+Proof.
+  unfold get_expanded_binding. destruct (iters_find its sym) as [pos|]; [|exact I]. cbv zeta.
+  oif; [reflexivity|]. destruct (find_binding _ sym 0) as [[k v]|]; exact I.
+Qed.
+Lemma tgb_opan p bs its sym : opan (Transform.get_binding p bs its sym).
+Proof. unfold Transform.get_binding. oif; [exact I|]. oif; [apply geb_opan|exact I]. Qed.
+Lemma expand_opan ell p bs f :
+  (forall t its, opan (expand ell p bs f t its)) /\ (forall t tit v its, opan (expand_loop ell p bs f t tit v its)).
+Proof.
+  induction f as [|f [IH1 IH2]]; [split; intros; exact I|]. split.
+  - intros t its. cbn [expand]. destruct t; try exact I.
+    + destruct (elems (CPair t1 t2)) as [|t0 tit]; [reflexivity|apply IH2].
+    + oif; [apply tgb_opan|exact I].
+  - intros t tit v its. cbn [expand_loop]. cbv zeta. apply opan_bind; [apply IH1|]. intros [r its1] _.
+    destruct r as [c|].
+    + oif; [apply IH2|]. destruct tit; [exact I|apply IH2].
+    + oif; [exact I|]. destruct (tl tit); [exact I|apply IH2].
+Qed.
+Lemma transform_rules_opan extra tr rules expr : opan (transform_rules extra tr rules expr).
+Proof.
+  induction rules as [|[pat template] rest IH]; cbn [transform_rules]; [exact I|].
+  apply opan_bind; [destruct (p_expr pat); exact I|intros pd _].
+  apply opan_bind; [destruct expr; exact I|intros ed _].
+  apply opan_bind; [apply pattern_match_opan|intros m _]. destruct m as [bs|]; [|apply IH].
+  apply opan_bind; [apply expand_opan|]. intros [r its] _. destruct r; exact I.
+Qed.
+Lemma transform_apply_opan tr expr : opan (transform_apply tr expr).
+Proof. unfold transform_apply, transform_apply_fuel. oif; [exact I|apply transform_rules_opan]. Qed.
+Lemma transform_expr_opan f : forall s e, opan (transform_expr f s e).
+Proof.
+  induction f as [|f IH]; intros s e; [exact I|]. cbn [transform_expr].
+  destruct e as [?|?| |?|proc rest|?|?|?| | |?| | ]; try exact I.
+  oif; [exact I|]. destruct (macro_of s proc) as [tr|].
+  - apply opan_bind; [apply transform_apply_opan|intros x _; apply IH].
+  - apply opan_bind; [apply IH|intros p' _]. apply opan_bind; [|intros; exact I].
+    match goal with |- opan (?F rest) => assert (HF : forall r, opan (F r)); [|apply HF] end.
+    intros r. cell_ind r; try exact (IH _ _); try exact I.
+    simpl. apply opan_bind; [apply IH|intros x' _]. apply opan_bind; [apply IHd|intros; exact I].
+Qed.
+
 Section Compile.
-(* TEMPORARY: the four heap/store primitives of NoPanicPrims3.v *)
-Hypothesis np_maybe_put_cell_m : forall c s, wfm s -> npo s (maybe_put_cell_m c s) V.
-Hypothesis np_put_cell_m : forall c s, wfm s -> npo s (put_cell_m c s) (fun s' r => exists p, r = VPtr p).
-Hypothesis np_get_binding : forall p s, wfm s -> npo s (get_binding p s) (fun s' k => k < len (g_slots s')).
-Hypothesis np_put_lambda : forall l s, wfm s -> head_ok (lambda_finish l) -> (forall v, In v (l_bc l) -> vwf s v) ->
-  npo s (put_lambda l s) (fun s' r => exists p, r = VPtr p /\ lamcell s' p).
-(* Vm::compile: the macro expander panics at the allowed sites 542 / 447 only *)
-Hypothesis Htransform : forall fuel s e k, transform_expr fuel s e = Panic k -> okp k.
+(* the two quoted-datum primitives (put_cell / maybe_put_cell) are in NoPanicPutCell.v *)
 
 Lemma np_put_cells l : forall s, wfm s -> npo s (put_cells l s) T_.
 Proof.
@@ -402,7 +452,7 @@ Proof.
   intros W B O. unfold compile. destruct (transform_expr TRANSFORM_FUEL s e) as [e'|x|k|] eqn:E.
   - apply np_compile_expression; assumption.
   - cbn [npost]. split; [exact W|apply grow_refl].
-  - cbn [npost]. eapply Htransform, E.
+  - cbn [npost]. exact (opan_use _ (transform_expr_opan _ _ _) _ E).
   - exact I.
 Qed.
 
